@@ -1,5 +1,6 @@
 import MosnVerif.Lemmas.PoolSpec
 import MosnVerif.Lemmas.StreamOnce
+import MosnVerif.Lemmas.PoolMuxSpec
 /-!
 # C09 — upstream connection pools: exclusive leases, no leaks, no dirty reuse (property theorems only)
 
@@ -319,5 +320,127 @@ example : ((Conf.init genProgs [[.reset, .destroy], [.destroy]]).run genProgs
     ((List.replicate 25 0) ++ (List.replicate 10 1))).done = true := by decide
 
 end Concurrent
+
+/-! ## the multiplex pool (`Model/PoolMux.lean`): slots, shared connections, go-away
+
+Every operation list {CheckAndInit (slot from the context | round robin; dial ok | refused | timed out), NewStream,
+response, local reset, garbage, go-away, connection close by either side, Shutdown, Close, load on the shared requests
+breaker}, every `max_connections` / `max_requests`. -/
+section Mux
+open MosnVerif.Model
+
+/-- the state after an arbitrary operation list against a fresh multiplex pool -/
+def mreach (maxConn maxReq : Nat) (ops : List PoolMux.Op) : PoolMux.State := PoolMux.run (PoolMux.init maxConn maxReq) ops
+
+theorem mux_reach_inv (maxConn maxReq : Nat) (ops : List PoolMux.Op) : PoolMux.Inv (mreach maxConn maxReq ops) :=
+  PoolMux.inv_run _ (PoolMux.inv_init maxConn maxReq) ops
+
+/-- **books** (multiplex): the shared requests breaker counts exactly the requests in flight plus the slots held
+elsewhere (nothing when its limit is 0); it never goes negative. -/
+theorem mux_books (maxConn maxReq : Nat) (ops : List PoolMux.Op) :
+    let s := mreach maxConn maxReq ops
+    s.reqCur = (if s.maxReq = 0 then 0 else (s.ext : Int) + (s.liveCount : Int)) ∧ 0 ≤ s.reqCur := by
+  intro s
+  have hinv : PoolMux.Inv s := mux_reach_inv maxConn maxReq ops
+  have h := hinv.core.req
+  refine ⟨h, ?_⟩
+  rw [h]; split <;> omega
+
+/-- **no_leak** (multiplex): at every quiescent point every OPEN connection the pool ever made is either the
+Connected client of its slot (the pool will lease requests on it) or is draining after a go-away with at least one
+request still in flight — never open, unused and unreachable. (Fails for the code before the repair: after a go-away
+with requests in flight and a re-connect, the drained connection stayed open and its close emptied the successor's
+slot.) -/
+theorem mux_no_leak (maxConn maxReq : Nat) (ops : List PoolMux.Op) (c : Nat) :
+    let s := mreach maxConn maxReq ops
+    c < s.nClients → (s.client c).netOpen = true →
+    ((s.client c).slot < s.nSlots ∧ s.slot (s.client c).slot = .real c ∧ (s.client c).state = Gen.PoolMux.muxConnected) ∨
+    (∃ i, i < s.nStreams ∧ (s.stream i).live = true ∧ (s.stream i).conn = c) := by
+  intro s hc ho
+  have h : PoolMux.Inv s := mux_reach_inv maxConn maxReq ops
+  by_cases hg : (s.client c).goaway = 0
+  · left
+    have hs := h.core.openOk c hc ho hg
+    exact ⟨h.core.slotRange _ c hs, hs, (h.core.st c hc).mpr hg⟩
+  · right
+    exact PoolMux.exists_of_countOn_pos _ _ _ (h.drain c hc ho hg)
+
+/-- the pool's view is the truth: the Connected client of a slot has an open connection, and a request in flight is
+on an open connection. -/
+theorem mux_slot_truth (maxConn maxReq : Nat) (ops : List PoolMux.Op) :
+    let s := mreach maxConn maxReq ops
+    (∀ i c, s.slot i = .real c → (s.client c).state = Gen.PoolMux.muxConnected → c < s.nClients ∧ (s.client c).netOpen = true) ∧
+    (∀ i, i < s.nStreams → (s.stream i).live = true → (s.client (s.stream i).conn).netOpen = true) := by
+  intro s
+  have h : PoolMux.Inv s := mux_reach_inv maxConn maxReq ops
+  exact ⟨fun i c hs hst => ⟨(h.core.slotOk i c hs).1, (h.core.slotOk i c hs).2.2 hst⟩,
+    fun i hi hl => (h.core.liveOk i hi hl).2⟩
+
+/-- a lease is granted only on an open connection that has not been told to go away; a refusal (no usable client in
+the slot, requests breaker full) changes nothing. -/
+theorem mux_lease_sound (maxConn maxReq : Nat) (ops : List PoolMux.Op) (k : Nat) :
+    let s := mreach maxConn maxReq ops
+    (∀ c, (PoolMux.newStream s k).2 = .ok c → c < s.nClients ∧ (s.client c).netOpen = true ∧ (s.client c).goaway = 0) ∧
+    ((PoolMux.newStream s k).2.isOk = false → (PoolMux.newStream s k).1 = s) := by
+  intro s
+  have h : PoolMux.Inv s := mux_reach_inv maxConn maxReq ops
+  unfold PoolMux.newStream
+  simp only
+  split
+  · exact ⟨fun c hc => (by cases hc), fun _ => rfl⟩
+  split
+  · exact ⟨fun c hc => (by cases hc), fun _ => rfl⟩
+  · exact ⟨fun c hc => (by cases hc), fun _ => rfl⟩
+  · rename_i c0 hs
+    split
+    · exact ⟨fun c hc => (by cases hc), fun _ => rfl⟩
+    · rename_i hu
+      split
+      · exact ⟨fun c hc => (by cases hc), fun _ => rfl⟩
+      · have ⟨h1, _, h3⟩ := h.core.slotOk _ c0 hs
+        have hst : (s.client c0).state = Gen.PoolMux.muxConnected := by
+          simp only [Gen.PoolMux.muxUnusable, decide_eq_true_eq, ne_eq, Decidable.not_not] at hu; exact hu
+        refine ⟨fun c hc => ?_, fun hno => by simp [PoolMux.Res.isOk] at hno⟩
+        cases hc
+        exact ⟨h1, h3 hst, (h.core.st c0 h1).mp hst⟩
+
+/-- **destroy_once** (multiplex): every stream tells its listeners of its end at most once — exactly once when it is
+no longer in flight — and hands over at most one response, none after a reset. -/
+theorem mux_destroy_once (maxConn maxReq : Nat) (ops : List PoolMux.Op) (i : Nat) :
+    let s := mreach maxConn maxReq ops
+    i < s.nStreams →
+    (s.stream i).destroys ≤ 1 ∧ ((s.stream i).destroys = 0 ↔ (s.stream i).live = true) ∧
+    (s.stream i).recv ≤ 1 ∧ (s.stream i).resets.length ≤ 1 ∧ ((s.stream i).recv = 1 → (s.stream i).resets = []) := by
+  intro s hi
+  have hinv : PoolMux.Inv s := mux_reach_inv maxConn maxReq ops
+  have h := hinv.core.once i hi
+  cases hl : (s.stream i).live
+  · have ⟨d1, d2, d3, d4⟩ := h.2 hl
+    exact ⟨by omega, by simp [d1], d2, d3, d4⟩
+  · have ⟨f1, f2, f3⟩ := h.1 hl
+    exact ⟨by omega, by simp [f1], by omega, by simp [f3], fun _ => f3⟩
+
+/-- the executable predicate evaluated on the implementation's observations holds of every model observation. -/
+theorem mux_spec_holds_on_model (maxConn maxReq : Nat) (ops : List PoolMux.Op) :
+    let s := mreach maxConn maxReq ops
+    PoolMux.obsSpec s.maxReq s.ext (PoolMux.obsOf s) = true :=
+  PoolMux.obsSpec_holds _ (mux_reach_inv maxConn maxReq ops)
+
+/-! ### non-vacuity -/
+-- go-away with a request in flight, re-connect, then the old request completes: the drained connection is closed,
+-- the successor keeps its slot
+example : let s := mreach 1 0 [.checkAndInit (some 0) .ok, .newStream 0, .goAway 0, .checkAndInit (some 0) .ok, .response 0]
+    (s.client 0).netOpen = false ∧ s.slot 0 = .real 1 ∧ (s.client 1).netOpen = true := by decide
+-- the old connection is lost instead: the successor keeps its slot and serves the next request
+example : ((PoolMux.trace (PoolMux.init 1 2) [.checkAndInit (some 0) .ok, .newStream 0, .newStream 0, .goAway 0,
+      .checkAndInit (some 0) .ok, .connClose 0 true, .newStream 0]).map (·.1)) =
+    [.ready false, .ok 0, .ok 0, .none, .ready false, .none, .ok 1] := by decide
+example : (mreach 1 2 [.checkAndInit (some 0) .ok, .newStream 0, .newStream 0, .goAway 0, .connClose 0 true]).reqCur = 0 := by decide
+-- a dial that is refused or times out leaves the slot empty; the next CheckAndInit connects
+example : ((PoolMux.trace (PoolMux.init 2 0) [.checkAndInit (some 1) .timeout, .newStream 1, .checkAndInit (some 1) .refused,
+      .checkAndInit (some 1) .ok, .checkAndInit (some 1) .ok, .newStream 1]).map (·.1)) =
+    [.ready false, .connFail, .ready false, .ready false, .ready true, .ok 0] := by decide
+
+end Mux
 
 end MosnVerif.Props.C09
